@@ -579,10 +579,10 @@ Scenario generate(const std::string& prop, uint64_t seed, const std::string& tie
     }
     // ---- scale scenarios (seed residues 1 and 2 modulo 4096; the batch driver forces one of each per batch) ----
     const int scale = (prop == "C02" || prop == "C03" || prop == "C15" || prop == "C18") ? int(seed & 4095) : 0;
-    if (prop == "C09" && (seed & 4095) == 1) {
+    if (prop == "C09" && ((seed & 4095) == 1 || (seed & 4095) == 2)) {   // four per batch (indices 0, 1, 3, 4): what a split of such a list loses depends on its exact length
         // dense target/source scale scenario: every leaf of a height-5 tree occupied on both sides, one group per level, more
         // threads than target groups: a single (target group, source group) pair carries > 65536 leaf-to-leaf interactions
-        sc.ordering = "morton"; sc.kernel = "weight"; sc.executor = r.chance(0.8) ? "omptsm" : "seqtsm";
+        sc.ordering = "morton"; sc.kernel = "weight"; sc.executor = r.chance(0.9) ? "omptsm" : "seqtsm";
         sc.upper = 2; sc.upperDefault = false; sc.topLevels = -2; sc.oneGroupPerParent = false;
         sc.height = 5;
         for (int d = 0; d < 3; ++d) { sc.width[size_t(d)] = 1.0; sc.centre[size_t(d)] = 0.5; }
@@ -594,7 +594,7 @@ Scenario generate(const std::string& prop, uint64_t seed, const std::string& tie
             sc.tgt.push_back({{(double(x) + 0.5) / double(cells), (double(y) + 0.25 + 0.5 * r.unit()) / double(cells), (double(z) + 0.5) / double(cells)}});
         }
         sc.blockSize = 10000000;
-        sc.threadsCtor = sc.threadsExec = 2 + int(r.below(7));
+        sc.threadsCtor = sc.threadsExec = 3 + int(r.below(6));
         HistOp p2p = full; p2p.flags = F_P2P;
         sc.history.clear();
         sc.history.push_back(r.chance(0.5) ? p2p : full);
